@@ -372,7 +372,12 @@ namespace occa {
       if (typeToken && type && (type->type() & typeType::enum_)) {
         return (typeToken->origin == type->source->origin);
       }
-      if (!has(typedef_)) {
+      // `typedef float real_t;` carries the typedef qualifier but its type is
+      // the aliased type itself (not a typedef_t), only `typedef struct {...} name;`
+      // style declarations wrap a typedef_t
+      if (!has(typedef_)
+          || !type
+          || !(type->type() & typeType::typedef_)) {
         return false;
       }
 
@@ -387,7 +392,12 @@ namespace occa {
       if (typeToken && type && (type->type() & typeType::struct_)) {
         return (typeToken->origin == type->source->origin);
       }
-      if (!has(typedef_)) {
+      // `typedef float real_t;` carries the typedef qualifier but its type is
+      // the aliased type itself (not a typedef_t), only `typedef struct {...} name;`
+      // style declarations wrap a typedef_t
+      if (!has(typedef_)
+          || !type
+          || !(type->type() & typeType::typedef_)) {
         return false;
       }
 
@@ -402,7 +412,12 @@ namespace occa {
       if (typeToken && type && (type->type() & typeType::union_)) {
         return (typeToken->origin == type->source->origin);
       }
-      if (!has(typedef_)) {
+      // `typedef float real_t;` carries the typedef qualifier but its type is
+      // the aliased type itself (not a typedef_t), only `typedef struct {...} name;`
+      // style declarations wrap a typedef_t
+      if (!has(typedef_)
+          || !type
+          || !(type->type() & typeType::typedef_)) {
         return false;
       }
 
